@@ -126,7 +126,7 @@ func New(w *core.World, v *Variant, plan *refexec.Plan) *Uni {
 			}
 			ft := ff.Type
 			out0 := ft.Out(0)
-			b := refexec.Binding{Resolver: true, Nilable: nilable(out0), Directive: fd.Directives.ForName("guard") != nil, Stamp: fd.Directives.ForName("stamp") != nil}
+			b := refexec.Binding{Resolver: true, Nilable: nilable(out0), Directive: fd.Directives.ForName("guard") != nil, Stamp: fd.Directives.ForName("stamp") != nil, TypeStamp: u.Schema.Types[fd.Type.Name()].Directives.ForName("stamp") != nil}
 			if fd.Type.Elem != nil && fd.Type.NonNull {
 				// model parameter P2: gqlgen serialises a nil slice at a non-null list position
 				// as [] without error, so plans never ask for null there
